@@ -543,7 +543,7 @@ pub fn check_root_with(root: &Root, classes: &[Class], depth: u8, _h: &ZobristHa
 
 pub fn run(tier: Tier, seed: u64) -> i32 {
     let mut run = Run::new("C11", tier, seed, "exploration");
-    run.rule = "evaluation = one real search (virtual clock, all iterations up to the limit complete) on a root near mate or stalemate, judged by the oracle's full-width mate solver: (1) mate-in-1 roots: the move standing after every completed iteration mates; (2) roots where some but not all moves allow a mate in one: the move standing after iterations 2 and 3 is not one of them; (3) every line `mate N`, 0<N<=3, requires a forced mate in <= N; `mate -N` on the last line of a completed depth requires mated-in-N; (4) a line reporting on a move that stalemates the opponent must not carry a mate score. Roots: sampled endgame families (KQK, KRK, KRRK, KBBK, KBNK, KQKR, pawn endings, ...) biased to edge/corner kings, sparse material with a cornered king hemmed in by its own men (minor piece against minor piece, pawn or rook: smothered and corner mates), mates in one that only an under-promotion gives, three-man endings K+Q / K+R / K+P v K (men placed uniformly, true distance 4-7 moves) searched to depth 8-10 with EVERY mate claim, of any length, decided by exact distance-to-mate tables the oracle builds from its own rules (retrograde-style forward iteration; longest mates 10, 16 and 28 moves as published), zugzwang-prone corner endings (king behind its rook pawn against king and knight with tempo pawns, searched to depth 10), positions 1-5 plies before a checkmate in oracle-driven games with full material, the library's mate/stalemate entries. Black box: the same two clauses for the move PLAYED by the real binary under slices of 1-20 ms - a violation needs an info line of depth >= 2 (>= 3) whose own time field lies below the plan, i.e. the first (second) iteration had finished before the allowance ended. Non-trivial = root classified mate-in-1 / avoidable mate / mated soon / stalemate trap; distinct by (root FEN, depth limit)".into();
+    run.rule = "evaluation = one real search (virtual clock, all iterations up to the limit complete) on a root near mate or stalemate, judged by the oracle's full-width mate solver: (1) mate-in-1 roots: the move standing after every completed iteration mates; (2) roots where some but not all moves allow a mate in one: the move standing after iterations 2 and 3 is not one of them; (3) every line `mate N`, 0<N<=3, requires a forced mate in <= N; `mate -N` on the last line of a completed depth requires mated-in-N; (4) a line reporting on a move that stalemates the opponent must not carry a mate score. Roots: sampled endgame families (KQK, KRK, KRRK, KBBK, KBNK, KQKR, pawn endings, ...) biased to edge/corner kings, sparse material with a cornered king hemmed in by its own men (minor piece against minor piece, pawn or rook: smothered and corner mates), mates in one that only an under-promotion gives, three-man endings K+Q / K+R / K+P v K (men placed uniformly, true distance 4-7 moves) searched to depth 8-10 with EVERY mate claim, of any length, decided by exact distance-to-mate tables the oracle builds from its own rules (retrograde-style forward iteration; longest mates 10, 16 and 28 moves as published), zugzwang-prone corner endings (king behind its rook pawn against king and knight with tempo pawns, searched to depth 10), positions 1-5 plies before a checkmate in oracle-driven games with full material, the library's mate/stalemate entries. Black box: the same two clauses for the move PLAYED by the real binary under slices of 1-20 ms - a violation needs an info line of depth >= 2 (>= 3) whose own time field lies below the plan, i.e. the first (second) iteration had finished before the allowance ended. Also on the real binary: three-man roots under slices of 60-250 ms (12-20 plies deep), every positive mate claim decided by the tables. Non-trivial = root classified mate-in-1 / avoidable mate / mated soon / stalemate trap; distinct by (root FEN, depth limit)".into();
     run.assumptions = vec![
         "negative mate claims are judged only on the last line of a completed depth (intermediate lines describe the first move tried, not the position)".into(),
         "claims with |N| > 3 or beyond the solver's node budget are counted as unchecked, not decided".into(),
